@@ -127,6 +127,8 @@ type Gen struct {
 	arrElems map[string]map[string]Val // local array location -> constant index -> stored value
 	worldSeen map[string]bool
 	topFrame *Frame
+	resultMode bool // values being introduced are results of a callee (may be freshly allocated)
+	hashState map[string]*Cell // sha256 objects (by their interface term) -> cell holding the bytes written so far
 }
 
 type engineError struct{ msg string }
@@ -347,6 +349,15 @@ func (g *Gen) heapSort(name string) string {
 		}
 		return wc.Sort
 	}
+	if strings.HasPrefix(name, "HA_") {
+		// array heap of a simple element sort named in a contract before any value of that type was seen
+		el := strings.TrimPrefix(name, "HA_")
+		if el == "Str" || el == "Int" || el == "Bool" || g.sorts.structs[el] != nil {
+			s := "(Array Int (Array Int " + el + "))"
+			g.sorts.heapUsed[name] = s
+			return s
+		}
+	}
 	g.fail("unknown heap or world component %q", name)
 	return ""
 }
@@ -476,13 +487,19 @@ func (g *Gen) typeInv(term string, t types.Type, depth int) []string {
 		if s == "Str" {
 			return nil
 		}
-		return []string{
+		out := []string{
 			fmt.Sprintf("(<= 0 (off_%s %s))", s, term),
 			fmt.Sprintf("(<= 0 (len_%s %s))", s, term),
 			fmt.Sprintf("(<= (len_%s %s) (cap_%s %s))", s, term, s, term),
-			fmt.Sprintf("(<= (arr_%s %s) 0)", s, term), // pre-existing storage, never a fresh allocation
 		}
+		if !g.resultMode {
+			out = append(out, fmt.Sprintf("(<= (arr_%s %s) 0)", s, term)) // pre-existing storage, never a fresh allocation
+		}
+		return out
 	case *types.Map:
+		if g.resultMode {
+			return nil
+		}
 		return []string{fmt.Sprintf("(<= %s 0)", term)}
 	}
 	return nil
